@@ -258,6 +258,31 @@ func genTiePair(t *rapid.T) (a, b decOperand, op string) {
 	return x, y, rapid.SampledFrom([]string{"+", "-"}).Draw(t, "tieop")
 }
 
+// genGapPair constructs a +/- pair whose leading digits are 30-40 places
+// apart, the larger operand often a power of ten: the small operand only
+// decides the rounding of the result (and, when the subtraction cancels the
+// leading digit, a digit the result actually keeps).
+func genGapPair(t *rapid.T) (a, b decOperand, op string) {
+	ac := rapid.SampledFrom([]string{"1", "1", "10", "1000000", "5", "25", "9", "99", "1000000000000000000000000000000000", "9999999999999999999999999999999999", "1000000000000000000000000000000001"}).Draw(t, "gapA")
+	if rapid.IntRange(0, 3).Draw(t, "gapArand") == 0 {
+		ac = genCoef(t, "gapAc")
+	}
+	ea := rapid.IntRange(-5, 30).Draw(t, "gapEa")
+	gap := rapid.IntRange(30, 40).Draw(t, "gap")
+	bc := strings.TrimLeft(rapid.StringMatching(`[0-9]{1,6}`).Draw(t, "gapB"), "0")
+	if bc == "" {
+		bc = "6"
+	}
+	// leading digit of a sits at 10^(ea+len(ac)-1); that of b must sit gap places below
+	eb := ea + len(ac) - 1 - gap - (len(bc) - 1)
+	a = decOperand{Neg: rapid.Bool().Draw(t, "gapAneg"), Coef: ac, Exp: ea}
+	b = decOperand{Neg: rapid.Bool().Draw(t, "gapBneg"), Coef: bc, Exp: eb}
+	if rapid.Bool().Draw(t, "gapSwap") {
+		a, b = b, a
+	}
+	return a, b, rapid.SampledFrom([]string{"+", "-"}).Draw(t, "gapOp")
+}
+
 func genCoefN(t *rapid.T, n int) string {
 	b := make([]byte, n)
 	for i := range b {
@@ -272,13 +297,16 @@ func genCoefN(t *rapid.T, n int) string {
 
 // TestC04Pairs: single operations.
 func TestC04Pairs(t *testing.T) {
-	run := h.Begin("C04", "pairs", "rapid: pairs of decimal operands (sign x coefficient of 1-34 digits from classes tiny / full 34 / all nines / powers of ten / trailing zeros / 16-19 digits x exponent in [-30,30]) under + - * / %, plus constructed rounding cases (discarded part exactly half a unit, just above, just below, even and odd retained digit); both literal spellings (exponent and plain); oracle: exact rational arithmetic, half-even rounding to 34 significant digits, % as a - b*trunc(a/b); compared by value through '[e]'; non-trivial: the exact result needed rounding, or the operands are >=20 orders of magnitude apart, or the operator is %; distinct by formula")
+	run := h.Begin("C04", "pairs", "rapid: pairs of decimal operands (sign x coefficient of 1-34 digits from classes tiny / full 34 / all nines / powers of ten / trailing zeros / 16-19 digits x exponent in [-30,30]) under + - * / %, plus constructed rounding cases (discarded part exactly half a unit, just above, just below, even and odd retained digit; sums and differences of operands whose leading digits are 30-40 places apart, the larger often a power of ten, so that cancellation moves the rounding position); both literal spellings (exponent and plain); oracle: exact rational arithmetic, half-even rounding to 34 significant digits, % as a - b*trunc(a/b); compared by value through '[e]'; non-trivial: the exact result needed rounding, or the operands are >=20 orders of magnitude apart, or the operator is %; distinct by formula")
 	defer run.End(t)
 	h.RapidSetup(h.N(20000, 2000000), "c04pairs")
 	rapid.Check(t, func(rt *rapid.T) {
 		var c arithCase
-		if rapid.IntRange(0, 4).Draw(rt, "tie") == 0 {
+		if k := rapid.IntRange(0, 5).Draw(rt, "tie"); k == 0 {
 			a, b, op := genTiePair(rt)
+			c = arithCase{Ops: []string{op}, Vals: []decOperand{a, b}}
+		} else if k == 1 {
+			a, b, op := genGapPair(rt)
 			c = arithCase{Ops: []string{op}, Vals: []decOperand{a, b}}
 		} else {
 			c = arithCase{Ops: []string{rapid.SampledFrom([]string{"+", "-", "*", "/", "%"}).Draw(rt, "op")}, Vals: []decOperand{genOperand(rt, "a"), genOperand(rt, "b")}}
